@@ -21,13 +21,15 @@ EXPLANATION = (
     "possibly an output variable = step state of an earlier step); restart performs its three effects on all "
     "components; copy is copy.deepcopy with no copy hooks, no class- or module-level mutable state written by instance "
     "methods and no mutable default arguments; grouped_terms never mutates the stored activations; Engine.__init__ "
-    "re-points every term and loads every block"
+    "re-points every term (of input and of output variables) and loads every block; copy() neither writes to the original nor calls a "
+    "state-writing method on one of its components (effect summaries over the call graph); no numpy in-place interface is applied to "
+    "a value a function on the processing path was handed (H10)"
 )
 ASSUMPTIONS = [
     "numpy and copy.deepcopy are deterministic; two runs of pure code on equal inputs give identical floats",
     "lock-previous off for the history-free clause (property precondition)",
 ]
-FLOORS = {"P1": 3, "O-dea": 7, "H5": 6, "H2": 7, "H3": 4, "H4": 5, "H6": 2, "H7": 3, "H9": 1, "H10": 1}
+FLOORS = {"P1": 3, "O-dea": 7, "H5": 6, "H2": 7, "H3": 4, "H4": 6, "H6": 2, "H7": 3, "H9": 1, "H10": 1}
 
 EXPECTED_STEP_STATE = {
     "activation_degree": "Rule: reset by deactivate() at the start of every iteration of every activate()",
@@ -347,6 +349,47 @@ def scan_writes_to(tree: ast.Module, name: str) -> list[int]:
     return out
 
 
+MUTATORS = {"append", "extend", "insert", "clear", "pop", "popleft", "update", "remove", "setdefault", "sort", "reverse", "add", "discard"}
+
+
+def _writes_state(cg: CallGraph, q: str, depth: int = 0, seen: set | None = None) -> bool:
+    """The function (or something it calls in the package) assigns an attribute / subscript of an object it was handed, or calls a
+    container mutator on one."""
+    memo = cg.p.__dict__.setdefault("_writes_state", {})
+    if q in memo:
+        return memo[q]
+    seen = seen if seen is not None else set()
+    if q in seen or depth > 6:
+        return False
+    seen.add(q)
+    f = cg._fn.get(q)
+    if f is None:
+        return False
+    res = False
+    for x in ast.walk(f.analysis_node):
+        if isinstance(x, (ast.Attribute, ast.Subscript)) and isinstance(x.ctx, (ast.Store, ast.Del)) and not (
+                isinstance(x, ast.Subscript) and isinstance(x.value, ast.Name) and _local_container(f, x.value.id)):
+            res = True
+            break
+        if isinstance(x, ast.Call) and isinstance(x.func, ast.Attribute) and x.func.attr in MUTATORS and isinstance(x.func.value, ast.Attribute):
+            res = True
+            break
+    if not res:
+        res = any(_writes_state(cg, c, depth + 1, seen) for c in cg.callees(f))
+    memo[q] = res
+    return res
+
+
+def _local_container(f, name: str) -> bool:
+    """`name` is bound in f to a container literal / constructor (a local dict or list being filled)."""
+    for x in ast.walk(f.analysis_node):
+        if isinstance(x, (ast.Assign, ast.AnnAssign)):
+            tgts = x.targets if isinstance(x, ast.Assign) else [x.target]
+            if any(isinstance(t, ast.Name) and t.id == name for t in tgts) and isinstance(x.value, (ast.Dict, ast.List, ast.Set, ast.DictComp, ast.ListComp, ast.Call)):
+                return True
+    return False
+
+
 def copy_rules(check: Check) -> None:
     p = check.program
     fn = p.func("Engine.copy")
@@ -355,6 +398,28 @@ def copy_rules(check: Check) -> None:
     rets = [r.term(n.ast.value, n) for n in r.cfg.stmt_nodes() if isinstance(n.ast, ast.Return) and n.ast.value is not None]
     ok = bool(rets) and all(t == ("call", ("global", "copy.deepcopy"), (("param", "self"),), ()) for t in rets)
     check.require(ok, "H4", "Engine.copy/deepcopy", "copy() returns copy.deepcopy(self)" if ok else f"copy() returns {[show(t) for t in rets]}", loc(fn))
+    # copying does not touch the original: no store through `self`, no call on something reached from `self` that writes state
+    cg = CallGraph(p)
+    touched = []
+    for n in r.cfg.stmt_nodes():
+        if n.copy:
+            continue
+        for tg in r.cfg.stores_at(n):
+            if isinstance(tg, (ast.Attribute, ast.Subscript)) and any(x == ("param", "self") for x in walk(r.term(tg.value, n))):
+                touched.append((n, f"`{unparse(n.ast)[:60]}` writes to the original engine"))
+        for c in r.cfg.calls_in(n):
+            if not isinstance(c.func, ast.Attribute):
+                continue
+            recv = r.term(c.func.value, n)
+            if not any(x == ("param", "self") for x in walk(recv)):
+                continue
+            for q in sorted(cg._call_targets(r, c, n)):
+                if _writes_state(cg, q):
+                    touched.append((n, f"`{unparse(c)[:60]}` calls {q}, which writes state, on an object of the original engine: "
+                                    "the original is modified by being copied (e.g. its terms now refer to the copy)"))
+                    break
+    check.require(not touched, "H4", "Engine.copy/original-untouched", "copy() neither writes to the original engine nor calls a state-writing method on "
+                  "one of its components" if not touched else touched[0][1], loc(fn, touched[0][0] if touched else None))
     hooks, defaults, shared_writes = [], [], []
     shared = []
     for mod in p.modules.values():
